@@ -531,6 +531,20 @@ func aritySkipNodes(exprs []*lisp.LVal) map[*lisp.LVal]bool {
 			for i := 2; i < len(sexpr.Cells); i++ {
 				skip[sexpr.Cells[i]] = true
 			}
+		case "dotimes":
+			// (dotimes (var count [result]) body...): the control sequence
+			// is syntax, not a call to a function named like the variable.
+			if ArgCount(sexpr) >= 1 && sexpr.Cells[1] != nil {
+				skip[sexpr.Cells[1]] = true
+			}
+		case "cond":
+			// (cond (test body...) ...): a clause is not a call to its test;
+			// the test and body forms inside it are still checked.
+			for i := 1; i < len(sexpr.Cells); i++ {
+				if sexpr.Cells[i] != nil {
+					skip[sexpr.Cells[i]] = true
+				}
+			}
 		case "handler-bind":
 			// (handler-bind ((condition-name handler) ...) body...): each
 			// entry pairs a condition name with a handler. It is not a call
